@@ -17,11 +17,12 @@ MCLines == { L("k", K_a, 0, 0, 0), L("k", K_a, 2, 0, 0), L("k", K_a, 0, 2, 0), L
              L("kv", K_a, 0, 0, 0), L("kv", K_a, 0, 0, 1), L("kv", K_b, 0, 0, 0),
              L("blank", <<>>, 0, 0, 0), L("ws", <<>>, 2, 0, 0), L("uws", <<>>, 2, 0, 0) }
 
+CONSTANT Wide   \* TRUE: also the key modes galt / ganch (FALSE in the longest exhaustive run of the thorough tier)
 CONSTANT Star   \* TRUE: the small alphabet for the regex whose group may be empty
 StarLines == { L("ide", <<>>, 0, 0, 0), L("ide", <<>>, 2, 0, 1), L("ide", K_a, 0, 0, 0), L("ide", K_a, 0, 0, 2),
                L("id", K_a, 0, 0, 0), L("k", K_a, 0, 0, 0), L("blank", <<>>, 0, 0, 0) }
 AllLines == MCLines
 MCLinesSel == IF Star THEN StarLines ELSE AllLines
 MCConfigs == { [kind |-> "unique", dir |-> "asc", sp |-> "", pat |-> p, fmt |-> "lex",
-                lp |-> "any", op |-> "==", n |-> 0] : p \in (IF Star THEN {"gstar"} ELSE {"none", "group", "plain", "galt", "ganch"}) }
+                lp |-> "any", op |-> "==", n |-> 0] : p \in (IF Star THEN {"gstar"} ELSE IF Wide THEN {"none", "group", "plain", "galt", "ganch"} ELSE {"none", "group", "plain"}) }
 =============================================================================
